@@ -21,6 +21,9 @@ from pyvc import sym
 from contracts import solver as S
 
 PROPS = {"C15"}
+# the 2-safety completeness statement is also what C02 ("for every halo width") and C12 ("history does not
+# matter") need of a solve that is handed a cache: a request never receives the result of a different request
+PROPS_REL = {"C15", "C02", "C12"}
 MATH = {"pi", "csqrt_re", "csqrt_im", "cis_re", "cis_im", "cexp_re", "cexp_im", "exp", "log", "sqrt",
         "sin", "cos", "str_float", "str_int"}
 
@@ -146,7 +149,7 @@ def generate_relational(ctx):
     lookup keys are equal return equal results.  Run A discovers which inputs enter the key as themselves;
     run B shares exactly those inputs with A, takes every other input fresh, and assumes the derived key
     components equal.  If the key is complete the two specification terms coincide."""
-    if not ctx.wants(PROPS):
+    if not ctx.wants(PROPS_REL):
         return
     ns = S.make_namespace(ctx)
     st = {}
@@ -159,7 +162,7 @@ def generate_relational(ctx):
 
         def thunk(run, cfg=cfg):
             run.scope = "solver.S+cache.rel[%s]" % cfg.name()
-            run.props = set(PROPS)
+            run.props = set(PROPS_REL)
             A = S.SInputs(run, cfg, tag="A")
             st["inp"] = A
             st["S00"] = lambda: S.S00_of(run, A)
@@ -233,7 +236,7 @@ def generate_relational(ctx):
             run.oblige("rel.equal-keys-give-equal-crop", (pxA == pxB) & (pyA == pyB) & (A.nx == B.nx) & (A.ny == B.ny), kind="rel")
             for nm, x, y in (("X", gA[0], gB[0]), ("Y", gA[1], gB[1]), ("Z", gA[2], gB[2])):
                 loops.oblige_equal(run, "rel.equal-keys-give-equal-grid." + nm, y, x, kind="rel")
-        ctx.explore("solver.S+cache.rel[%s]" % cfg.name(), thunk, PROPS)
+        ctx.explore("solver.S+cache.rel[%s]" % cfg.name(), thunk, PROPS_REL)
 
 
 # ===================================================================== the cache class itself
